@@ -137,6 +137,7 @@ Proof.
   intros H. unfold finalize.
   destruct (w_finalized w); [exact H|].
   destruct ((U16MAX <? vt_width v) || (U16MAX <? vt_height v)); [exact H|].
+  destruct (param_sets_too_long (w_vconfig w)) eqn:Gps; [exact H|].
   destruct (if fs then finalize_fast_start w v m (effective_config w)
             else finalize_standard w v m (effective_config w)) as [bufs term].
   destruct (run_plan bufs (w_bytes_written w) (w_sink w)) as [[bw s] e].
@@ -219,6 +220,26 @@ Proof.
   reflexivity.
 Qed.
 Print Assumptions oversized_dimensions_are_rejected.
+
+(** * F5b: parameter sets (fix "finish returns an error for parameter sets that do not fit avcC/hvcC's 16-bit
+      length fields"): a stored SPS/PPS (H.264) or VPS/SPS/PPS (H.265) longer than 65535 bytes makes finalize
+      return InvalidInput; the writer (hence its sink, its byte counter and its finalized flag) is unchanged:
+      nothing is written and the writer is not marked finalized *)
+Theorem oversized_parameter_sets_are_rejected : forall w v m fs,
+  w_finalized w = false ->
+  match w_vconfig w with
+  | Some (CfgAvc a) => 65535 < len (avc_sps a) \/ 65535 < len (avc_pps a)
+  | Some (CfgHevc h) => 65535 < len (hevc_vps h) \/ 65535 < len (hevc_sps h) \/ 65535 < len (hevc_pps h)
+  | _ => False
+  end ->
+  finalize w v m fs = (w, FinErr (FinIo IoInvalidInput)).
+Proof.
+  intros w v m fs Hf Hp. unfold finalize. rewrite Hf.
+  destruct ((U16MAX <? vt_width v) || (U16MAX <? vt_height v)); [reflexivity|].
+  replace (param_sets_too_long (w_vconfig w)) with true; [reflexivity|].
+  destruct (w_vconfig w) as [[a|h|a|p]|]; cbn [param_sets_too_long]; unfold U16MAX; try contradiction; lia.
+Qed.
+Print Assumptions oversized_parameter_sets_are_rejected.
 
 (** * F6: mdat size *)
 Theorem oversized_mdat_is_rejected_fast_start : forall w v m c,
